@@ -26,7 +26,7 @@ from props import exprlib as el, c01
 ID = 'C18'
 PROFILES = ['dev']
 REPLAY_PROFILES = ['dev', 'release']
-TIME_LIMIT = {'quick': 300, 'thorough': 1800}
+TIME_LIMIT = {'quick': 600, 'thorough': 1800}
 BUDGET = 150
 FIRST_BUDGET = 60
 
